@@ -1357,7 +1357,7 @@ func (m *Model) SeekSnap(s *MSub, sn *MSnap, t0, t1 time.Time) {
 		} else if msgAfter {
 			want = 1
 		}
-		if own && e.Origin != nil && want == 0 && e.State == stAcked && !e.Fuzzy {
+		if own && e.Origin != nil && want == 0 {
 			// (known finding) the ack list of a snapshot is built from the topic's messages by
 			// message publish time; a dead-letter forwarded copy never gets onto it, so the
 			// seek may re-open this acknowledged copy
